@@ -41,14 +41,14 @@ def corpora(rng, tier):
         out.append(dict(name="thrift%d" % i, kind="thrift", files=doc.texts(), entries=["main.thrift", "f1.thrift"], **OPTS[i % len(OPTS)]))
     # ignore_unused (default) + Builder::touch: several files of ~100 items, 40% touched, the rest unused
     for i in range(1 if tier == "quick" else 3):
-        files, entries, touches = bldgen.c17_touch_corpus(random.Random(rng.randrange(1 << 30)), n_files=rng.choice([4, 5, 6]), items=rng.choice([90, 100, 120]))
-        out.append(dict(name="touch%d" % i, kind="thrift", files=files, entries=entries, touch=touches, flags=[], again=True,
+        files, entries, touches, cg = bldgen.c17_touch_corpus(random.Random(rng.randrange(1 << 30)), n_files=rng.choice([4, 5, 6]), items=rng.choice([90, 100, 120]))
+        out.append(dict(name="touch%d" % i, kind="thrift", files=files, entries=entries, touch=touches, collect=cg, flags=[], again=True,
                         threads=[1, 2, 16, 3, 1, 8, 2, 5], split_procs=3 if tier == "quick" else 12))
     # Builder::dedup: the scratch map of Codegen::duplicate is keyed by the bare item name and valid per module only
     for i in range(1 if tier == "quick" else 3):
         files, entries, names = bldgen.c17_dedup_corpus(random.Random(rng.randrange(1 << 30)), n_modules=rng.choice([8, 10, 12]))
         out.append(dict(name="dedup%d" % i, kind="thrift", files=files, entries=entries, dedup=names, threads=[1, 2, 16, 1, 2, 2, 1, 16],
-                        layout=False, flags=["--no-ignore-unused"]))
+                        flags=["--no-ignore-unused"]))
     for i in range(n_pb):
         files = bldgen.c17_proto_corpus(random.Random(rng.randrange(1 << 30)), n_top=rng.choice([4, 6]), n_nested=rng.choice([4, 6]))
         out.append(dict(name="proto%d" % i, kind="pb", files=files, entries=["p0.proto", "p1.proto"],
@@ -176,8 +176,8 @@ def read_dump(path):
     items = []
     for ln in open(path, encoding="utf-8"):
         t = ln.rstrip("\n").split(" ")
-        if len(t) == 5 and t[0] == "I":
-            items.append((t[1], t[2], t[3], t[4]))
+        if len(t) in (5, 6) and t[0] == "I":
+            items.append(tuple(t[1:6]) if len(t) == 6 else (t[1], t[2], t[3], t[4], "-"))
     return items
 
 
@@ -190,9 +190,14 @@ def undisp(s):
     return s
 
 
-def layout_case(split, items, extra):
-    its = ";".join("%s|%s|%s|%s" % it for it in items) or "-"
+def layout_case(split, items, extra, dedup=None):
+    """items: (mod path, prefix, raw name, emitted name, class key).  With Builder::dedup on the model filters every module group
+    with its own scratch map (Dedup.layout_pred_dedup) before laying it out"""
     ex = ";".join(",".join(p) if p else "-" for p in extra) or "-"
+    if dedup:
+        its = ";".join("%s|%s|%s|%s|%s" % it for it in items) or "-"
+        return "layoutd %d %s %s %s" % (1 if split else 0, ex, ",".join(dedup), its)
+    its = ";".join("%s|%s|%s|%s" % it[:4] for it in items) or "-"
     return "layout %d %s %s" % (1 if split else 0, ex, its)
 
 
@@ -209,7 +214,7 @@ def is_subseq(small, big):
     return all(any(x == y for y in it) for x in small)
 
 
-def check_layout(chk, runner, hb, run, mode, corpus_name):
+def check_layout(chk, runner, hb, run, mode, corpus_name, dedup=None):
     """compares the model's predicted layout with the one scraped from the run's output. returns list of mismatches"""
     out = run["out"]
     dump = read_dump(os.path.join(out, "_dump.txt"))
@@ -217,9 +222,9 @@ def check_layout(chk, runner, hb, run, mode, corpus_name):
     units = []      # (label, items, file, base_dir)
     if mode == "workspace":
         crates = {}
-        for mp, pre, nm, em in dump:
+        for mp, pre, nm, em, key in dump:
             segs = mp.split(",")
-            crates.setdefault(segs[0], []).append((",".join(segs[1:]) or "-", pre, nm, em))
+            crates.setdefault(segs[0], []).append((",".join(segs[1:]) or "-", pre, nm, em, key))
         for cn, its in sorted(crates.items()):
             units.append((cn, its, os.path.join(out, "ws", cn, "src", "gen.rs"), os.path.join(out, "ws", cn, "src")))
         found = sorted(d for d in os.listdir(os.path.join(out, "ws")) if os.path.isdir(os.path.join(out, "ws", d)))
@@ -234,7 +239,7 @@ def check_layout(chk, runner, hb, run, mode, corpus_name):
             continue
         split = mode == "split"
         scraped, repubs = scrape(f, split, base)
-        cases.append(layout_case(split, its, [[undisp(x) for x in p] for p in repubs] if mode == "workspace" else []))
+        cases.append(layout_case(split, its, [[undisp(x) for x in p] for p in repubs] if mode == "workspace" else [], dedup))
         metas.append((label, scraped, split))
     preds = core.run_lines(runner, cases, shards=1) if cases else []
     for (label, scraped, split), pl, case in zip(metas, preds, cases):
@@ -362,12 +367,37 @@ def run(chk, replay=None):
                                      differing_files=diff[:20], file=f0, content_a=text(ref), content_b=text(r))))
         dist["modules_per_run"].append(dict(corpus=cname, mode=mode, files=len(ref["hashes"])))
         # layout correspondence on the first and the last run of the group
-        # (not for the dedup corpora: the model's layout does not drop deduplicated items)
         if runner and ref["status"] == "OK" and lst[0][0][0].get("layout", True):
             for j, r in (lst[0], lst[-1]):
                 if r["status"] == "OK":
-                    for pb in check_layout(chk, runner, hb, r, mode, cname):
+                    for pb in check_layout(chk, runner, hb, r, mode, cname, dedup=j[0].get("dedup")):
                         layout_problems.append(dict(corpus=cname, mode=mode, env=r["env"], **pb))
+    # ---- Collect.v vs the implementation: the SET of generated items of a touch corpus (single-file runs, entry file 0).  The model runs
+    # on the dependency graph the generator knows (service -> Req -> items, items -> the later items their fields name) with roots =
+    # the service, then the touched names in list order; the implementation's set is read from the dump of the codegen items
+    collect_cases, collect_mismatch = 0, []
+    if runner:
+        for (cname, mode), lst in sorted(by.items()):
+            c = lst[0][0][0]
+            if not c.get("collect") or mode != "single" or lst[0][1]["status"] != "OK":
+                continue
+            g = c["collect"]["graph"]
+            ids = {n: i for i, n in enumerate(sorted(g))}
+            roots = c["collect"]["roots"] + [n for _, ns in c["touch"] for n in ns]
+            line = "collect %s - %s" % (",".join(str(ids[n]) for n in roots), ";".join("%d:%s" % (ids[n], ",".join(str(ids[x]) for x in g[n])) for n in sorted(g)))
+            hist = core.run_lines(runner, [line], shards=1)[0]
+            rev = {i: n for n, i in ids.items()}
+            model = {rev[int(x)] for x in hist.split(",") if x.strip().isdigit()}
+            for j, r in (lst[0], lst[-1]):
+                dumped = {it[2] for it in read_dump(os.path.join(r["out"], "_dump.txt"))}
+                impl = {n for n in dumped if n in ids}
+                collect_cases += 1
+                chk.count("collect %s %s" % (cname, j[4]), True)
+                if impl != model:
+                    collect_mismatch.append(dict(corpus=cname, mode=mode, env=r["env"], what="set of generated items differs from Collect.collect_items",
+                                                 only_model=sorted(model - impl)[:20], only_impl=sorted(impl - model)[:20]))
+    chk.cov["collect_sets_compared"] = collect_cases
+    layout_problems += collect_mismatch
     chk.cov["distribution"] = dist
     chk.cov["disagreements_checked"] = len(results)
     chk.cov["layout_mismatches"] = len(layout_problems)
